@@ -50,7 +50,7 @@ func tryB(f func()) *hx.PanicInfo {
 
 func TestMain(m *testing.M) {
 	R.Require("recipients>1", "gcm", "descbc", "c1c2c3", "c1c3c2", "rsa_recipient", "non_recipient", "wrong_key", "sm2_signed_attrs", "sm2_signed_noattrs", "rsa_signed_library", "detached",
-		"mut:content", "mut:attr", "mut:digest_attr", "mut:signature", "mut:other_key_cert", "p12_pwd_nonascii", "p12_wrong_pwd", "p12_corrupt", "p12_cacerts", "p12_long_pwd")
+		"mut:content", "mut:attr", "mut:digest_attr", "mut:signature", "mut:other_key_cert", "p12_pwd_nonascii", "p12_wrong_pwd", "p12_corrupt", "p12_cacerts", "p12_long_pwd", "signers>1")
 	hx.Main(m, R)
 }
 
@@ -639,6 +639,7 @@ func TestC17_LibrarySigner(t *testing.T) {
 	hx.Check(t, hx.N(150, 2000), func(t *rapid.T) {
 		content := contentGen(1000).Draw(t, "content")
 		detach := gen.OneIn(t, "detach", 4)
+		nsigners := rapid.IntRange(1, 3).Draw(t, "nsigners")
 		var der []byte
 		var err error
 		if p := tryB(func() {
@@ -652,6 +653,11 @@ func TestC17_LibrarySigner(t *testing.T) {
 			}
 			if err = sd.AddSigner(rsaCerts[0], rsaKeys[0], cfg); err != nil {
 				return
+			}
+			for i := 1; i < nsigners; i++ {
+				if err = sd.AddSigner(rsaCerts[i], rsaKeys[i], gx.SignerInfoConfig{}); err != nil {
+					return
+				}
 			}
 			if detach {
 				sd.Detach()
@@ -679,9 +685,35 @@ func TestC17_LibrarySigner(t *testing.T) {
 		if err := p7.Verify(); err == nil {
 			t.Fatalf("library signed-data still verifies with altered content")
 		}
+		// several signers: the object verifies only if EVERY signer's signature does - one altered signature, whichever
+		// position it has in the SET, must be enough to fail
+		p7.Content = content
+		if len(p7.Signers) != nsigners {
+			t.Fatalf("parsed %d signers, %d were added", len(p7.Signers), nsigners)
+		}
+		for i := range p7.Signers {
+			orig := p7.Signers[i].EncryptedDigest
+			bad := append([]byte{}, orig...)
+			bad[len(bad)/2] ^= 0x01
+			p7.Signers[i].EncryptedDigest = bad
+			var verr error
+			if pn := tryB(func() { verr = p7.Verify() }); pn != nil {
+				t.Fatalf("Verify panicked: %v", pn.Val)
+			}
+			if verr == nil {
+				t.Fatalf("signed-data with %d signers still verifies after the signature of signer #%d (in wire order) was altered", nsigners, i)
+			}
+			p7.Signers[i].EncryptedDigest = orig
+		}
+		if err := p7.Verify(); err != nil {
+			t.Fatalf("restored signed-data no longer verifies: %v", err)
+		}
 		cl := []string{"rsa_signed_library"}
 		if detach {
 			cl = append(cl, "detached")
+		}
+		if nsigners > 1 {
+			cl = append(cl, "signers>1")
 		}
 		R.Case(true, hx.HashKey(der), cl...)
 	})
